@@ -24,7 +24,7 @@ impl Check for C15 {
         "C15"
     }
     fn rule(&self) -> String {
-        "case = one grammar: a zoo grammar (20%), a 'lexical context' grammar (40%: an infix operator and a delimited/prefixed literal token that starts with the operator's character - / and /re/, | and |x|, - and -1, < and <a>, % and %a - valid in different contexts, with conditional/call/statement variants; judged on every token string up to a bound joined with and without blanks) or a random grammar of the C03 generator (conflict-free CFGs with hidden/inlined rules, aliases, fields; operator tables). (a) the generator is run in 3 SEPARATE processes (vcheck --generate-only; fresh hash seeds, different working directory and environment, one pinned to a single CPU with taskset) through the directory interface the CLI uses, plus once in-process: parser.c and node-types.json must be byte-identical across all of them. (b) the grammar is generated with the state-merging optimisation on and off, both parsers are compiled and loaded, and on every token string up to the largest length with <= 1500 strings, 80 random derivations and their mutations (zoo grammars: 60 generated documents of all six classes) the two parsers must agree on 'has an error' and produce identical explicit trees. evaluations = strings compared + generator processes. Non-trivial: grammar accepted and the two tables differ in STATE_COUNT; distinct by hash(grammar, string).".into()
+        "case = one grammar: a zoo grammar (20%), a 'lexical context' grammar (40%: an infix operator and a delimited/prefixed literal token that starts with the operator's character - / and /re/, | and |x|, - and -1, < and <a>, % and %a - valid in different contexts, with conditional/call/statement variants; judged on every token string up to a bound joined with and without blanks, and on generated sentences with mutations and re-spacings; 30% of them are 'same core' grammars: 2-4 contexts '1'..'4' each using 2-4 rules with one identical body that are told apart only by the following token, the token-to-rule assignment being a rotation or a tape-chosen permutation per context, so that three or more LR(1) states share a core and conflict pairwise) or a random grammar of the C03 generator (conflict-free CFGs with hidden/inlined rules, aliases, fields; operator tables). (a) the generator is run in 3 SEPARATE processes (vcheck --generate-only; fresh hash seeds, different working directory and environment, one pinned to a single CPU with taskset) through the directory interface the CLI uses, plus once in-process: parser.c and node-types.json must be byte-identical across all of them. (b) the grammar is generated with the state-merging optimisation on and off, both parsers are compiled and loaded, and on every token string up to the largest length with <= 1500 strings, 80 random derivations and their mutations (zoo grammars: 60 generated documents of all six classes) the two parsers must agree on 'has an error' and produce identical explicit trees. evaluations = strings compared + generator processes. Non-trivial: grammar accepted and the two tables differ in STATE_COUNT; distinct by hash(grammar, string).".into()
     }
     fn cases(&self, tier: Tier) -> u64 {
         match tier {
@@ -271,6 +271,9 @@ fn lexctx_grammar(t: &mut Tape, name: &str) -> (String, Vec<String>) {
         ("<", r"<[a-z]+>", ["<a>", "<if>"]),
         ("%", r"%[a-z]+", ["%a", "%if"]),
     ];
+    if t.pct(30) {
+        return same_core_grammar(t, name);
+    }
     let k = t.below(pairs.len());
     let (op, long_pat, long_samples) = pairs[k];
     if t.pct(50) {
@@ -363,6 +366,59 @@ fn lexctx_grammar(t: &mut Tape, name: &str) -> (String, Vec<String>) {
         terms.push(op2.to_string());
         terms.push(s2[0].to_string());
     }
+    (text, terms)
+}
+
+/// Same-core template: C contexts (distinguished by a prefix token) each use R rules with one and the same body, told
+/// apart only by the token that follows; the assignment of following tokens to rules is a tape-chosen permutation per
+/// context. The LR(1) states after the body share one item-set core in all contexts; two contexts may be merged only
+/// if their assignments agree, so with three or more contexts the merger has to separate groups of states that
+/// conflict pairwise.
+fn same_core_grammar(t: &mut Tape, name: &str) -> (String, Vec<String>) {
+    let n_ctx = 2 + t.weighted(&[20, 50, 30]);
+    let n_rules = 2 + t.weighted(&[35, 45, 20]);
+    let las = ["x", "y", "z", "w"];
+    let (body, body_terms): (&str, &[&str]) = match t.below(4) {
+        0 => (r#"{"type":"SEQ","members":[{"type":"STRING","value":"a"},{"type":"STRING","value":"p"}]}"#, &["a", "p"]),
+        1 => (r#"{"type":"STRING","value":"a"}"#, &["a"]),
+        2 => (r#"{"type":"SEQ","members":[{"type":"STRING","value":"("},{"type":"SYMBOL","name":"number"},{"type":"STRING","value":")"}]}"#, &["(", "1", ")"]),
+        _ => (r#"{"type":"REPEAT1","content":{"type":"STRING","value":"a"}}"#, &["a"]),
+    };
+    let mut seqs: Vec<String> = vec![];
+    for c in 0..n_ctx {
+        // rotation (most likely to make every pair of contexts conflict) or an arbitrary permutation
+        let mut perm: Vec<usize> = (0..n_rules).collect();
+        if t.pct(60) {
+            perm.rotate_left(c % n_rules);
+        } else {
+            for i in (1..n_rules).rev() {
+                let j = t.below(i + 1);
+                perm.swap(i, j);
+            }
+        }
+        for r in 0..n_rules {
+            seqs.push(format!(r#"{{"type":"SEQ","members":[{{"type":"STRING","value":"{}"}},{{"type":"SYMBOL","name":"r{r}"}},{{"type":"STRING","value":"{}"}}]}}"#, c + 1, las[perm[r]]));
+        }
+    }
+    // order of the alternatives decides the state numbering
+    for i in (1..seqs.len()).rev() {
+        if t.pct(30) {
+            let j = t.below(i + 1);
+            seqs.swap(i, j);
+        }
+    }
+    let choice = format!(r#"{{"type":"CHOICE","members":[{}]}}"#, seqs.join(","));
+    let source = if t.pct(50) { choice } else { format!(r#"{{"type":"REPEAT","content":{choice}}}"#) };
+    let mut rules = vec![format!(r#""source": {source}"#)];
+    for r in 0..n_rules {
+        rules.push(format!(r#""r{r}": {body}"#));
+    }
+    rules.push(r#""number": {"type":"PATTERN","value":"[0-9]+"}"#.to_string());
+    let text = format!(r#"{{"name":"{name}","extras":[{{"type":"PATTERN","value":"\\s"}}],"conflicts":[],"precedences":[],"externals":[],"inline":[],"supertypes":[],"rules":{{{}}}}}"#, rules.join(","));
+    let mut terms: Vec<String> = (0..n_ctx).map(|c| (c + 1).to_string()).collect();
+    terms.extend(body_terms.iter().map(|x| x.to_string()));
+    terms.extend(las[..n_rules].iter().map(|x| x.to_string()));
+    terms.dedup();
     (text, terms)
 }
 
